@@ -67,7 +67,7 @@ def check_case(case):
                                  data=dict(d0, kind_var=m['kind'], var=m['name'])))
         key = proc.discrete_part(meta, xc)
         by_corr.setdefault(key, []).append(rec)
-        if len(res.violations) > 5:
+        if len(res.violations) > 40:
             break
     # the same corrected design must report one activeness, however it was reached
     both = False
@@ -114,7 +114,7 @@ def check_case(case):
                                      f'row {x}: listed {listed}, raw vector {rec["x"]} corrected to it reports '
                                      f'{rec["active"]}', data=dict(d0, create='corrected', kinds=[m['kind'] for m in meta])))
                         break
-                if len(res.violations) > 3:
+                if len(res.violations) > 40:
                     break
     res.nontrivial = both
     res.sample = {'spec': spec, 'enc': enc, 'n_vectors': len(obs.records), 'n_corrected_designs': len(by_corr),
